@@ -3,6 +3,7 @@
 package stores
 
 import (
+	"context"
 	"fmt"
 	"os"
 	"path/filepath"
@@ -19,9 +20,9 @@ import (
 	"perkeep.org/pkg/blobserver/memory"
 	"perkeep.org/pkg/sorted"
 
-	_ "perkeep.org/pkg/blobserver/blobpacked"
+	"perkeep.org/pkg/blobserver/blobpacked"
 	_ "perkeep.org/pkg/blobserver/cond"
-	_ "perkeep.org/pkg/blobserver/diskpacked"
+	"perkeep.org/pkg/blobserver/diskpacked"
 	_ "perkeep.org/pkg/blobserver/encrypt"
 	_ "perkeep.org/pkg/blobserver/localdisk"
 	_ "perkeep.org/pkg/blobserver/namespace"
@@ -239,6 +240,13 @@ func (d *Durable) kv(path string) sorted.KeyValue {
 	return m
 }
 
+// WipeKV replaces the rows behind a gate KV by an empty KV.
+func (d *Durable) WipeKV(path string) {
+	d.mu.Lock()
+	defer d.mu.Unlock()
+	d.KV[path] = sorted.NewMemoryKeyValue()
+}
+
 func (d *Durable) disk(path string) *gate.Disk {
 	d.mu.Lock()
 	defer d.mu.Unlock()
@@ -266,12 +274,19 @@ func (d *Durable) dir(path string) (string, error) {
 	return p, nil
 }
 
+var recoverMu sync.Mutex // blobpacked.SetRecovery is package-global
+
 // Env is what one build shares: plan, log, rank function, durable state.
 type Env struct {
 	P    *gate.Plan
 	L    *gate.Log
 	Rank func(blob.Ref) any
 	D    *Durable
+	// Recover: rebuild every store from its primary data by its own recovery
+	// procedure while building: diskpacked index wiped and re-created by
+	// diskpacked.Reindex, blobpacked meta wiped and rebuilt by full recovery,
+	// encrypt index wiped (meta re-scan at open).
+	Recover bool
 }
 
 // Sys is a built configuration.
@@ -405,6 +420,9 @@ func build(c *Cfg, path string, sys *Sys, ld *loader) (sto blobserver.Storage, c
 		if err != nil {
 			return nil, false, false, err
 		}
+		if env.Recover && (c.Opt["kv"] == "" || c.Opt["kv"] == "gate") {
+			env.D.WipeKV(path + ".idx")
+		}
 		kc, err := sys.kvConf(path+".idx", c.Opt["kv"])
 		if err != nil {
 			return nil, false, false, err
@@ -412,6 +430,17 @@ func build(c *Cfg, path string, sys *Sys, ld *loader) (sto blobserver.Storage, c
 		conf := jsonconfig.Obj{"path": dir, "metaIndex": map[string]any(kc)}
 		if m := c.optInt("max", 0); m > 0 {
 			conf["maxFileSize"] = float64(m)
+		}
+		if env.Recover && (c.Opt["kv"] == "" || c.Opt["kv"] == "gate") {
+			if _, err := os.Stat(filepath.Join(dir, "pack-00000.blobs")); err == nil {
+				kc2 := jsonconfig.Obj{}
+				for k, v := range kc {
+					kc2[k] = v
+				}
+				if err := diskpacked.Reindex(context.Background(), dir, true, kc2); err != nil {
+					return nil, false, false, fmt.Errorf("RECOVERY-FAILED diskpacked.Reindex: %v", err)
+				}
+			}
 		}
 		s, err := blobserver.CreateStorage("diskpacked", ld, conf)
 		if err == nil {
@@ -429,12 +458,26 @@ func build(c *Cfg, path string, sys *Sys, ld *loader) (sto blobserver.Storage, c
 		if err != nil {
 			return nil, false, false, err
 		}
+		if env.Recover && (c.Opt["kv"] == "" || c.Opt["kv"] == "gate") {
+			env.D.WipeKV(path + ".meta")
+		}
 		kc, err := sys.kvConf(path+".meta", c.Opt["kv"])
 		if err != nil {
 			return nil, false, false, err
 		}
+		if env.Recover {
+			recoverMu.Lock()
+			blobpacked.SetRecovery(blobpacked.FullRecovery)
+		}
 		s, err := blobserver.CreateStorage("blobpacked", ld, jsonconfig.Obj{
 			"smallBlobs": sp, "largeBlobs": lp, "metaIndex": map[string]any(kc), "keepGoing": true})
+		if env.Recover {
+			blobpacked.SetRecovery(blobpacked.NoRecovery)
+			recoverMu.Unlock()
+			if err != nil {
+				err = fmt.Errorf("RECOVERY-FAILED blobpacked full recovery: %v", err)
+			}
+		}
 		return s, true, false, err
 	case "encrypt":
 		bp, _, _, err := child(0)
@@ -444,6 +487,9 @@ func build(c *Cfg, path string, sys *Sys, ld *loader) (sto blobserver.Storage, c
 		mp, _, _, err := child(1)
 		if err != nil {
 			return nil, false, false, err
+		}
+		if env.Recover && (c.Opt["kv"] == "" || c.Opt["kv"] == "gate") {
+			env.D.WipeKV(path + ".idx")
 		}
 		kc, err := sys.kvConf(path+".idx", c.Opt["kv"])
 		if err != nil {
